@@ -44,6 +44,15 @@ def build(tier, known):
                          bound=f'all ASCII attribute texts of length exactly {n}; element type with two attributes (string-typed, unsigned-integer-typed) with symbolic names, required flags and version masks; attribute-name lookup uninterpreted; any single-bit file version',
                          claim='strict Ok <=> lenient Ok without warnings, same attributes; first lenient warning = strict error; strict Ok => every required attribute present and every attribute listed for the element with a version mask containing the file version',
                          native=('data', 'n_attr_text'), parts=(16 if n >= 5 else (4 if n == 4 else 1)), timeout=900 if q else 7200))
+    hs.append(Harness('n_c08_element', 'data', 'parser.rs', '', functions=[], bound='', claim='', role='native'))
+    for mode, fn_, dom in (('multiplicity', 'check_multiplicity', 'container mode in {Sequence, Choice, Bag, Mixed}, multiplicity in {none, ZeroOrOne, One, Any}, two existing sub-elements and the new one with symbolic names'),
+                           ('conflict', 'check_element_conflict', 'index vectors of length 0..2 / 1..2 with symbolic entries, content mode of the common group in {Sequence, Choice, Bag, Mixed}'),
+                           ('find', 'find_element_in_spec_checked', 'sub-element listed or not, arbitrary version mask, any single-bit file version (find_sub_element(name, v) finds it iff listed and the mask contains v)')):
+        hs.append(E2Spec(f'e2_c08_element_{mode}', 'C08Element', dict(mode=mode),
+                         functions=[f'parser::ArxmlParser::{fn_}', 'parser::ArxmlParser::check_version', 'parser::ArxmlParser::optional_error', 'parser::ArxmlParser::error'],
+                         bound=f'the answers of the specification crate are symbolic: {dom}',
+                         claim='strict Ok <=> lenient Ok without warnings; first lenient warning = strict error; strict rejects exactly the documented violation (repeated single-occurrence sub-element / two different alternatives of an exclusive choice / sub-element unknown or not available in the file version)',
+                         native=('data', 'n_c08_element'), timeout=600))
     info = dict(
         assumptions=['E2 library models (mirsym/models.py) are trusted and validated against the native build',
                      'the pattern validator, f64 parsing and the enum item lookup are uninterpreted deterministic functions: the claim holds for every validator / table'],
